@@ -482,6 +482,12 @@ def rule_r6(chk, p, t):
     C04.rule_r7(chk, p, t, rid="C05.R6")
 
 
+def rule_r7(chk, p, t):
+    from rules.shared_memo import memo_rule
+
+    memo_rule(chk, p, t, "C05.R7", modules=("resonaate.physics.time",), floor=12, what="the time conversion modules (physics.time)")
+
+
 def run(chk, p, t):
     chk.explanation = (
         "Static decision of structural necessary conditions of C05: (R1) the float seconds of a Julian date are "
@@ -493,7 +499,7 @@ def run(chk, p, t):
         "algorithm over 1901-2099 (float arithmetic)."
     )
     chk.assumptions += ["round/around/rint round to nearest; int/floor/trunc truncate; timedelta normalises (carries) seconds"]
-    for fn in (rule_r1, rule_r2, rule_r3, rule_r4, rule_r5, rule_r6):
+    for fn in (rule_r1, rule_r2, rule_r3, rule_r4, rule_r5, rule_r6, rule_r7):
         rid = "C05.R" + fn.__name__[-1]
         if not chk.wants(rid):
             continue
